@@ -48,6 +48,21 @@ CHECKS = {
    text="Theorems: roundtrip (load(save r) ~ r: names in order, bit-equal values, py->np widening only), roundtrip_norm, roundtrip_order, roundtrip_options (str/float/int/np types convert to the same spring after reload), bc_dispatch (four thermal kinds + pressure), bc_dispatch_unknown, downstream_equal, roundtrip_twice. Tied to srlife by saving 120 random receivers per run with the real code (unsorted and numeric-looking names, all option types, all abstractions, all BC kinds, flow paths, result dictionaries with nan/inf/denormals), reloading, and comparing a typed canonical form and the file's group iteration order with the model; thermal, life and reliability stages are run on original vs reloaded receivers (bit-equal).",
    note="Trusted: Lean kernel + Mathlib; h5py type coercions as tabulated in SrModel/H5.lean (checked each run); names are HDF5 link names (open finding F27: a name containing '/'); bool options are outside the documented option set.",
    design="4/C16"),
+ "C07": dict(
+   technique="Lean 4 proof (list induction over chains/paths, state-machine induction for initial condition and reset, link algebra over the reals, steady face balance of the solid step) + exact stub-driven correspondence of the bookkeeping + real coupled solves",
+   text="Theorems: setup_validation (accept iff each panel in exactly one path), panel_order/recover indexing for any chain, write_back_spec, starts_at_T0, reset_returns_T0, inlet_is_prescribed, tube_heat_balance, multiplier_equiv_tube/_manifold, manifold_mean, profile_ends, energy_consistency_solid (steady solid: heat through outer faces = heat handed to the fluid through inner faces) and energy_factor_bound (the half-cell-radius factor is within 2 dr/r_i of 1). Tied to srlife by running the real _setup, FlowPath chain/dof map/recovery, solve_fluid write-back and solve_receiver reset logic through stubs and comparing exactly with the model, and by real coupled solves (1D/2D/3D, multipliers, reversed panel order, transient with cycle reset, k x m vs 1 x km tubes) on which inlet temperature, traversal order, linear profile, mass split, energy consistency within 2 dr/r_i, initial condition and reset are evaluated.",
+   note="Trusted: Lean kernel + Mathlib; stubs for solve_step/FlowPath in the bookkeeping correspondence; Picard convergence (C17); jax AD; uniform geometry within a panel; wall condition and link use film coefficients evaluated at slightly different temperatures (second-order difference, inside the property's tolerance).",
+   design="4/C07"),
+ "C18": dict(
+   technique="Lean 4 proof over the reals (Real.log/Real.rpow; monotonicity of the Gnielinski expression without calculus; interval-Horner positivity certificates with hand-proved soundness closed by decide +kernel) + translator regenerating the shipped fluid data each run + Float correspondence with the jax implementation",
+   text="Theorems: film_ge_floor, film_pos, tEff_spec, nusselt_laminar, nusselt_turbulent, gnielinski_def, film_finite (well-definedness under stated positivity), nusselt_pos, shipped_props_positive and shipped_params_ok about Gen.FluidData (regenerated from srlife/data/thermalfluid and the constructor signature on every run), turbulent_monotone and film_monotone_u (the coefficient does not decrease with velocity in the turbulent regime). Tied to srlife by comparing T_effective, Re, Pr, Nu, film and the four property polynomials of the real code with the model on Float (1e-10) for shipped and random polynomial fluids over temperatures inside/outside the window, velocities 0..1e10, the cut-off neighbourhood, and by evaluating the property on the real code (laminar value, Gnielinski recomputed in numpy, clipping, monotone sweeps).",
+   note="Trusted: Lean kernel + Mathlib; gen/gen_fluid.py (self-checked against the loaded objects); libm log/pow (1e-10); points where code and model fall on different sides of the cut-off by fused-multiply-add rounding are compared for Re/Pr only; Pr >= 0.7 for the shipped fluids is sampled, not proved.",
+   design="4/C18"),
+ "C14": dict(
+   technique="Lean 4 proof over any ordered field (dof-map partition by list induction; link residual roots; mass split; linear profile; recovery indexing) + Float correspondence of every link residual with the jax implementation + predicates on real FlowPath.solve solutions",
+   text="Theorems: dofmap_partition, inletDof_succ, root_start, root_panel (heat balance of every tube in the code's exact form), root_manifold, mass_split, profile_linear/profile_affine, recover_indexing, for any chain length, tubes per panel, weights and grid counts. Tied to srlife by comparing link residual vectors, dof maps, recovered flow rates and profiles of real chains (1-4 panels, 1-4 tubes, multipliers, shipped fluids) with the model on Float (1e-10), the slicing of tube ghost arrays in add_panel_from_object (exact), and by recomputing inlet node, per-tube heat balance, manifold mean, mass split and linear profile independently in numpy on real FlowPath.solve solutions.",
+   note="Trusted: Lean kernel + Mathlib; jax/numpy arithmetic (1e-10); the time interpolations enter the model as their values at the query time (re-interpolated independently in the predicate); per-panel geometry from the first tube (as the code says).",
+   design="4/C14"),
 }
 PENDING_REASON = "check not built yet in this round (work in progress; see DESIGN.md section 4 for the planned model and theorems) — not claimed"
 
